@@ -277,6 +277,7 @@ def is_diagonal(A: Any, atol: float = 1e-12) -> bool:
         offdiagonal = A.reshape(-1)[:-1].reshape(len(A) - 1, len(A) + 1)[:, 1:]
         return not np.any(np.abs(offdiagonal) > atol)
     if sparse.issparse(A):
-        A = sparse.dia_array(A)
-        return not any(A.offsets)
+        # Off-diagonal entries within atol (rounding noise, stored zeros) do not count.
+        A = sparse.coo_array(sparse.csr_array(A))
+        return not np.any(np.abs(A.data[A.row != A.col]) > atol)
     raise NotImplementedError(f"Cannot extract diagonal from {type(A)}")
